@@ -52,7 +52,12 @@ TEXT_FAULTS = [
     ("attr_value_from_inserted_item", "sub", "_ cA > cC:2 cB {user1 = @1.user1};", "_ cA > cC:2 cB {user1 = @2.user1};", "", "", {"2141"}),
     ("constraint_reads_inserted_item", "sub", "_ cA > cC:2 cB / _ _ {@1.user1 == 1};", "_ cA > cC:2 cB / _ _ {@2.user1 == 1};", "", "", {"2141"}),
     ("attribute_wrong_role_feature", "sub", "cA > cB {f1 = cC};", "cA > cB {user1 = 1};", "", "", None),
+    # a context that consists of `_` only and is shorter than the rule's items (known finding: accepted, the context is
+    # silently extended; with any other context item the same mismatch is error 3140)
+    ("underscore_context_shorter_than_rule", "pos", "cA {advance.x = 5m} cB {advance.x = 5m} / _;", "cA {advance.x = 5m} cB {advance.x = 5m} / _ _;", "", "", {"3140"}),
 ]
+
+KNOWN = {"underscore_context_shorter_than_rule": "C10:underscore-only-context-shorter-than-the-rule-is-accepted"}
 
 
 def ir_faults():
@@ -146,7 +151,8 @@ def run(tier, seed, replay=None):
             shutil.rmtree(dd, ignore_errors=True)
             shutil.copytree(d, dd)
             rep.violation(name, {"rule": name, "table": table, "faulty_program": ftext, "twin": ttext, "problems": problems},
-                          no_failing_input=(predicted is False and len(problems) == 1))
+                          no_failing_input=(predicted is False and len(problems) == 1),
+                          signature=KNOWN.get(name) if (len(problems) == 1 and problems[0].startswith("faulty program: exit 0")) else None)
         if len(samples) < 3:
             samples.append({"rule": name, "faulty": ftext.split("\n")[fline - 1], "errors": errs[:2]})
         shutil.rmtree(d, ignore_errors=True)
